@@ -6,6 +6,7 @@ for d in sorted(glob.glob('/verif/seeded/*')):
     mp=f'{d}/meta.json'
     if not os.path.exists(mp): continue
     m=json.load(open(mp))
+    if 'id' not in m: continue
     what=m.get('summary') or ''
     if not what and os.path.exists(f'{d}/README.md'):
         txt=open(f'{d}/README.md').read()
